@@ -515,6 +515,11 @@ def run_group_join(op, tl, par):
         raise Boom("mapper")
     ld = (lambda v: rx.timer(par["dl"] + (10 if v == 2 else 0), scheduler=s)) if not par.get("ldur_fails") else fails
     rd = lambda v: rx.timer(par["dr"], scheduler=s)
+    if par.get("rsync"):
+        # the right duration ends from INSIDE its subscribe call (empty() on no scheduler: what window_toggle / buffer_toggle pass when they
+        # are subscribed without one): the element goes to the windows that are open and is retained for no time at all
+        from reactivex.scheduler import ImmediateScheduler
+        rd = lambda v: rx.empty(scheduler=ImmediateScheduler())
     o = left.pipe(ops.group_join(right, ld, rd), ops.map(lambda t: t[1].pipe(ops.map(lambda y, _x=t[0]: (_x, y)))))
     inners, outer = observe_inners(s, o)
     s.start()
@@ -576,8 +581,9 @@ def ref_group_join(op, tl, par):
             if k == "N":
                 st["hid"] += 1
                 hid = st["hid"]
-                held[hid] = v
-                heapq.heappush(q, (t + par["dr"], next(seq), "expire", hid))
+                if not par.get("rsync"):
+                    held[hid] = v
+                    heapq.heappush(q, (t + par["dr"], next(seq), "expire", hid))
                 for w in wins:
                     if w["open"]:
                         w["items"].append((t, "N", (w["x"], v)))
@@ -595,7 +601,8 @@ def ref_group_join(op, tl, par):
 
 GJ_PARS = [{"dl": dl, "dr": dr, "right": r} for dl in (15, 30) for dr in (5, 20)
            for r in ([], [[215, "N", "p"]], [[205, "N", "p"], [225, "N", "q"]], [[215, "N", "p"], [225, "C", None]], [[215, "N", "p"], [225, "E", None]],
-                     [[210, "N", "p"], [220, "N", "q"], [230, "N", "r"]])] + [{"dl": 15, "dr": 20, "right": [[205, "N", "p"]], "ldur_fails": True}]
+                     [[210, "N", "p"], [220, "N", "q"], [230, "N", "r"]])] + [{"dl": 15, "dr": 20, "right": [[205, "N", "p"]], "ldur_fails": True}] + [
+               {"dl": dl, "dr": 0, "rsync": True, "right": r} for dl in (15, 30) for r in ([[205, "N", "p"], [225, "N", "q"]], [[210, "N", "p"], [220, "N", "q"], [230, "N", "r"]])]
 
 GROUP_PARS = ([{"key": k, "elem": e, "dur": d} for k in ("mod2", "const", "none_or_0") for e in ("-", "x10")
                for d in (["never"], ["timer", 10], ["timer", 25], ["count", 1], ["count", 2], ["group_end"], ["sync_empty"], ["throw_at", 1])]
